@@ -376,5 +376,12 @@ class Formatter(FormatterInterface):
 
         # Get a function from the table, if available, else just use bare name
         func = dtype_math_table.get(c.function, c.function)
+
+        # C converts a complex argument of a real-only function silently, dropping its imaginary part
+        if np.issubdtype(arg_type, np.complexfloating) and any(
+            getattr(arg, "dtype", None) == L.DataType.SCALAR for arg in c.args
+        ):
+            if c.function not in dtype_math_table or func in ("yn", "jn"):
+                raise RuntimeError(f"Math function '{c.function}' does not support complex arguments.")
         args = ", ".join(self(arg) for arg in c.args)
         return f"{func}({args})"
